@@ -585,3 +585,42 @@ func (c *Ctx) slotPairing(rule string) {
 		r.Info(rule, "-", "sends on channel fields", "-", "no shared component takes slots from a channel field (reference: 0)")
 	}
 }
+
+// rotatedBeforeAuthenticated (C07): the cookie login is complete — the
+// caller's request is marked as authenticated — only after the replacement
+// token was stored. Marking it earlier leaves, when minting or storing the
+// new token fails, an authenticated request whose cookie was consumed but
+// not rotated (the middleware only logs that error and serves the request).
+func (c *Ctx) rotatedBeforeAuthenticated(rule string) {
+	r := c.R
+	fn := c.P.FuncOpt("ab/remember.Authenticate")
+	if fn == nil || len(fn.Params) < 3 {
+		return
+	}
+	name := FuncName(fn)
+	adds := CallsTo(fn, fnAddRemember)
+	if len(adds) == 0 {
+		r.Unknown(rule, name, "AddRememberToken", "-", "no AddRememberToken call in Authenticate")
+		return
+	}
+	n := 0
+	for _, b := range fn.Blocks {
+		for _, in := range b.Instrs {
+			st, ok := in.(*ssa.Store)
+			if !ok || st.Addr != ssa.Value(fn.Params[2]) {
+				continue
+			}
+			n++
+			ok2 := false
+			for _, a := range adds {
+				if e := ErrResult(a); e != nil && ErrNilAt(st, e) {
+					ok2 = true
+				}
+			}
+			r.Check(ok2, rule, name, "AddRememberToken==nil≺*req=authenticated", posf(c, st), "the request is marked authenticated only after the rotated token was stored", "the caller's request is replaced (marked as authenticated) on a path where the replacement token may not have been stored: a failure of minting or storing leaves an authenticated request and a consumed, unrotated cookie")
+		}
+	}
+	if n == 0 {
+		r.Unknown(rule, name, "*req = …", "-", "Authenticate never replaces the caller's request (reference: once, after the rotation)")
+	}
+}
